@@ -116,6 +116,65 @@ func errDropsIn(prog *an.Prog, fn *ssa.Function) []errDrop {
 		if cmp.Op == token.EQL {
 			nonNil = b.Succs[1]
 		}
+		// an error that was already consumed on the way here (an earlier test handled it) is not dropped by a later
+		// test of the same value: `if err != nil { handle(err) }; if err == nil && more { ... }`
+		reachesTest := func(from *ssa.BasicBlock) bool {
+			seen := map[*ssa.BasicBlock]bool{}
+			var walk func(x *ssa.BasicBlock) bool
+			walk = func(x *ssa.BasicBlock) bool {
+				if x == b {
+					return true
+				}
+				if seen[x] {
+					return false
+				}
+				seen[x] = true
+				for _, sc := range x.Succs {
+					if walk(sc) {
+						return true
+					}
+				}
+				return false
+			}
+			return from != b && walk(from)
+		}
+		isNilTestUse := func(r ssa.Instruction) bool {
+			c2, ok := r.(*ssa.BinOp)
+			return ok && (c2.Op == token.EQL || c2.Op == token.NEQ) && (isNilConst(c2.X) || isNilConst(c2.Y))
+		}
+		consumedBefore := false
+		if alloc == nil {
+			for _, r := range *t.Referrers() {
+				if _, dbg := r.(*ssa.DebugRef); dbg || isNilTestUse(r) || r.Block() == nil {
+					continue
+				}
+				if _, isPhi := r.(*ssa.Phi); isPhi {
+					continue
+				}
+				if reachesTest(r.Block()) {
+					consumedBefore = true
+				}
+			}
+		} else {
+			for _, r := range *alloc.Referrers() {
+				ld, ok := r.(*ssa.UnOp)
+				if !ok || ld.Op != token.MUL || ld == t {
+					continue
+				}
+				realUse := false
+				for _, r2 := range *ld.Referrers() {
+					if _, dbg := r2.(*ssa.DebugRef); !dbg && !isNilTestUse(r2) {
+						realUse = true
+					}
+				}
+				if realUse && reachesTest(ld.Block()) {
+					consumedBefore = true
+				}
+			}
+		}
+		if consumedBefore {
+			continue
+		}
 		// blocks reachable from the non-nil successor
 		used := false
 		if alloc == nil {
